@@ -91,10 +91,14 @@ pub proof fn lemma_ttg_kids_push(s: Seq<Token>, c: Token)
 // --- stage 1: what group_tokens builds from the token list --------------------------------------
 // the list tokenize() returns: leaves only; an opening parenthesis is followed by a subgoal or another
 // opening parenthesis; the first token is a subgoal or an opening parenthesis
+// (the second conjunct is stated through a named predicate: written directly it mentions s[i + 1] under the trigger s[i],
+// which the solver unrolls step after step - the proofs that used it sat at their resource limit, 8.48)
+pub open spec fn lparen_next(s: Seq<Token>, i: int) -> bool {
+    0 <= i < s.len() && ttype(s[i]) is LParen ==> i + 1 < s.len() && (ttype(s[i + 1]) is Subgoal || ttype(s[i + 1]) is LParen)
+}
 pub open spec fn leaves_ok(s: Seq<Token>) -> bool {
     &&& forall|i: int| 0 <= i < s.len() ==> short_leaf(#[trigger] s[i]) && is_leaf_type(ttype(s[i]))
-    &&& forall|i: int| 0 <= i < s.len() && ttype(#[trigger] s[i]) is LParen ==>
-            i + 1 < s.len() && (ttype(s[i + 1]) is Subgoal || ttype(s[i + 1]) is LParen)
+    &&& forall|i: int| #[trigger] lparen_next(s, i)
 }
 pub open spec fn starts_operand(s: Seq<Token>, i: int) -> bool {
     0 <= i < s.len() && (ttype(s[i]) is Subgoal || ttype(s[i]) is LParen)
@@ -535,7 +539,6 @@ pub proof fn lemma_tok_push(ts: Seq<Token>, t: Token)
 }
 // (the second conjunct of leaves_ok mentions s[i + 1] under the trigger s[i]: the solver unrolls it a few steps; this lemma sat at
 // 95-105% of the default resource limit, i.e. it was one harmless change away from a spurious failure - given room)
-#[verifier::rlimit(150)]
 pub proof fn lemma_tok_done(ts: Seq<Token>)
     requires tok_inv(ts), !operand_due(ts),
     ensures leaves_ok(ts), starts_operand(ts, 0),
@@ -545,8 +548,7 @@ pub proof fn lemma_tok_done(ts: Seq<Token>)
     assert forall|k: int| 0 <= k < ts.len() implies short_leaf(#[trigger] ts[k]) && is_leaf_type(ttype(ts[k])) by {
         assert(leaf_ok(ts, k));
     }
-    assert forall|i: int| 0 <= i < ts.len() && ttype(#[trigger] ts[i]) is LParen implies
-            i + 1 < ts.len() && (ttype(ts[i + 1]) is Subgoal || ttype(ts[i + 1]) is LParen) by {
+    assert forall|i: int| #[trigger] lparen_next(ts, i) by {
         assert(next_ok(ts, i));
     }
 }
